@@ -196,6 +196,9 @@ func c07(c *ev.Ctx) {
 	// other loops mentioning their names (the stream is shared with C02)
 	c02ExitHistories(c)
 	c07HostileHistories(c)
+	// the host changes a record in place and hands the same pointer / map to the next run
+	// (the stream is shared with C04)
+	c04SameReference(c)
 }
 
 type c07Odd struct {
